@@ -89,6 +89,13 @@ CLAIMED["C14"] = (
     "DESIGN.md §2 E-TABLE/E-NUMFMT, §3 C14",
 )
 
+CLAIMED["C03"] = (
+    "abstract interpretation of the XML builder functions into the emitted element tree (tags, attributes, text expressions, emission order, guards; builder calls expanded, dynamic tags resolved from enums / state fields / obstacle roles) walked against the parsed 2020a XSD; formatter classification of every numeric text expression",
+    "Decides for the whole writer (about 200 element/attribute emission sites in 30 builders): every emitted name is allowed by the schema type of its parent in at least one context the builder is used in (type-dispatch branches for inexpressible values excepted), xs:sequence children are emitted in schema order (choice groups unordered), required children and attributes are emitted, decimal-typed text goes through the positional formatter, enumeration text is the enum value, and the writer's attribute-name mapping inverts the reader's on every schema state element. Id/ref key constraints, positiveDecimal ranges and what float_to_str prints for a particular number are not decided.",
+    "Trusts the XSD reader (flattened compositors), float_to_str producing plain decimals, and annotations for int-typed sources.",
+    "DESIGN.md §2 E-TRIANGLE/E-NUMFMT, §3 C03",
+)
+
 NOT_APPLICABLE = {
     "C17": "modular arithmetic over runtime integers (%, cumsum, argmax): no sound static argument in reach; the only structural part (memo freshness) is decided under C11, and 'TrafficLight delegates to its cycle' is sufficient but not necessary, so a rule on it would fire on behaviour-preserving edits",
 }
